@@ -81,7 +81,8 @@ Record request := {
   r_access_token : option pystr;
   r_assertion : option token;        (* client_assertion *)
   r_request : option token;          (* request (request object) *)
-  r_authflag : bool }.               (* the body itself carries a non-empty "authenticated" parameter *)
+  r_authflag : bool }.               (* the body itself carries a non-empty "authenticated" parameter (ignored:
+                                        Endpoint.parse_request deletes it before authenticating) *)
 
 (* ------------------------------------------------------------------ configuration *)
 Record client := {
@@ -447,11 +448,13 @@ Definition parse_request (cx : actx) (ep : endpoint) (rq : request) (now : Z) (j
     match r with
     | Err e => (Err e, j1)
     | Unmodelled => (Unmodelled, j1)
-    | Ok None => (Ok (PGeneric (r_client_id rq) (r_authflag rq)), j1)
+    (* "authenticated" is deleted from the request before client authentication (whatever r_authflag
+       says) and set only for an authenticating method that named a client *)
+    | Ok None => (Ok (PGeneric (r_client_id rq) false), j1)
     | Ok (Some ai) =>
         match ai_client ai with
-        | Some ((_ :: _) as c) => (Ok (PGeneric (Some c) (r_authflag rq || authenticating (ai_method ai))), j1)
-        | _ => (Ok (PGeneric (r_client_id rq) (r_authflag rq)), j1)
+        | Some ((_ :: _) as c) => (Ok (PGeneric (Some c) (authenticating (ai_method ai))), j1)
+        | _ => (Ok (PGeneric (r_client_id rq) false), j1)
         end
     end.
 
